@@ -210,7 +210,7 @@ def run(ctx):
         for req in (21, 144, 987, 4181):
             pts, w = ZCW(mode).get_orient_points(req)
             zerr["%s/%d" % (mode, req)] = round(max(abs(traceless_avg(pts, w, np.diag(np.diag(T)) - np.eye(3) * np.trace(np.diag(np.diag(T))) / 3 if mode == "octant" else T)) for T in Ts), 6)
-        if zerr["%s/4181" % mode] > 0.05 or zerr["%s/4181" % mode] > zerr["%s/21" % mode]:
+        if zerr["%s/4181" % mode] > zerr["%s/21" % mode] or any(zerr["%s/%d" % (mode, r_)] * r_ > 4.0 for r_ in (144, 987, 4181)):
             ctx.fail_input("traceless", dict(scheme="ZCW", mode=mode), "traceless average does not shrink with the set size: %s" % {k: v for k, v in zerr.items() if k.startswith(mode)}, classify)
     ctx.stats["traceless_error_zcw"] = zerr
     # ---- SHREWD
@@ -251,6 +251,9 @@ def run(ctx):
         else:
             a_, b_ = sorted(rng.randint(int(lo * 8), int(hi * 8)) / 8.0 for _ in range(2))
             f = [a_, a_, b_] if rng.random() < 0.5 else [a_, b_, b_]
+        # frequency units from 2^-30 (~1e-9) to 2^20 (~1e6): conservation must not depend on the scale of the axis
+        sc = 2.0 ** rng.choice([0, 0, 0, -10, -20, -30, 10, 20])
+        x, f, dx, lo, hi = x * sc, [v * sc for v in f], dx * sc, lo * sc, hi * sc
         perm = rng.sample(range(3), 3)
         y = np.array([f[perm[0]], f[perm[1]], f[perm[2]]])
         wts = np.array([rng.randint(1, 8) / 4.0 for _ in range(3)])
@@ -258,7 +261,7 @@ def run(ctx):
         tw = float(np.mean(wts))
         case = dict(x=[float(v) for v in x], y=[float(v) for v in y], weights=[float(v) for v in wts])
         ctx.evaluations += 1
-        ctx.seen(("tent", kind, nb, round(float(out.sum()) / tw, 6)))
+        ctx.seen(("tent", kind, nb, sc, round(float(out.sum()) / tw, 6)))
         inside = (lo <= f[0] and f[2] <= hi) if f[0] < f[2] else (lo <= f[0] < hi)       # a flat triangle is counted in the half-open bin holding it
         if inside and abs(out.sum() - tw) > 1e-9 * tw:
             if f[0] == f[2]:
